@@ -48,13 +48,14 @@ class VttCue:
     center = "center"
     right = "right"
 
-  _EOL_SEQ_RE = re.compile(r"\n{2,}")
+  _EOL_SEQ_RE = re.compile(r"(?:\r\n|\r|\n){2,}")
 
   def __init__(self, identifier: Optional[int] = None):
     self._id: int = identifier
     self._begin: Optional[ClockTime] = None
     self._end: Optional[ClockTime] = None
     self._text: str = ""
+    self._plain: str = ""
     self._line: int = None
     self._linealign: VttCue.LineAlignment = None
     self._textalign: VttCue.TextAlignment = None
